@@ -321,7 +321,7 @@ theorem dfsLoop_full {n : Nat} {c : Fin n → Fin n → ℤ} {s t : Fin n} (hst 
           rw [a2', a3'] at b5
           exact b5 v hv hmk w hw
 
-/-- **progress of a phase**: when the labels admit a path source → target, `dfs()` returns and its
+/-- **progress of a phase**: when the labels allow a path source → target, `dfs()` returns and its
     blocking flow is ≥ 1 -/
 theorem dfs_full {n : Nat} {c : Fin n → Fin n → ℤ} {s t : Fin n} (hst : s ≠ t) (hN : n ≤ INV)
     (d : Dinic) (F : ℤ) (hi : DL c s t d F) (htr : TrPos d) (hadm : AdmTo d.g d.level t.val s.val) :
